@@ -9,15 +9,14 @@ Theorems about the model of the deferred-error protocol (Model/IoCell.lean) and 
 namespace SaphyrVerif.Props.C10
 open SaphyrVerif SaphyrVerif.Scalars SaphyrVerif.Pump SaphyrVerif.Reader SaphyrVerif.IoCell SaphyrVerif.Lemmas.C10
 
-/-- (T) fault_surfaces_single.  For EVERY consumer strategy, EVERY list of parser items that satisfies the
-document-framing contract (`SInv`: content only inside documents), EVERY set of fault points and every
-budget / alias configuration: if the shared cell was set at any point during a
-`from_reader*` / `with_deserializer_from_reader*` call, the call does not return `Ok`.
-The delicate step: the `Err` that the trailing `peek` ignores when `seen_doc_end` holds can never be the
-taken I/O error, because the pump never delivers an event (which is what a successful consumer ends
-on) with `seen_doc_end` still set (`parserLoop_event`). -/
+/-- (T) fault_surfaces_single.  For EVERY consumer strategy, EVERY list of parser items (no contract on
+the scanner is needed), EVERY set of fault points and every budget / alias configuration: if the shared
+cell was set at any point during a `from_reader*` / `with_deserializer_from_reader*` call, the call does
+not return `Ok`.  Every observation point (`next`, `peek`, `finish`) returns the taken I/O error, the
+consumer propagates it, and — since fix ae01964 — the trailing `peek` ignores only scanner errors after a
+document end marker (`Error::is_trailing_garbage`), never an I/O error. -/
 theorem fault_surfaces_single (c : Client) (fuel : Nat) (s : Src)
-    (hcell : s.cell = none) (hever : s.everSet = false) (hi : SInv s) :
+    (hcell : s.cell = none) (hever : s.everSet = false) :
     (fromReader c fuel s).2.everSet = true → (fromReader c fuel s).1 ≠ .ok := by
   unfold fromReader
   cases hrc : runClient c fuel [] s with
@@ -29,14 +28,12 @@ theorem fault_surfaces_single (c : Client) (fuel : Nat) (s : Src)
     | none =>
       simp only []
       have hk0 : K false s := by intro h; simp [hever] at h
-      have hj0 : J s := by intro h; simp [hcell] at h
-      obtain ⟨hk, hj, _⟩ := runClient_ok c fuel [] s s1 false hk0 hj0 hi hrc
+      have hk := runClient_K c fuel [] s s1 false hk0 hrc
       cases hc : s1.cell with
       | some k =>
         have hp : s1.peek = (.err (.io k), { s1 with cell := none }) := doOp_some .peek hc
         rw [hp]
-        have : s1.pump.seenDocEnd = false := hj (by simp [hc])
-        simp [this]
+        simp [Err.isTrailingGarbage]
       | none =>
         have hk2 : K false s1.peek.2 := doOp_K_none .peek hc hk
         cases hpk : s1.peek with
@@ -51,54 +48,74 @@ theorem fault_surfaces_single (c : Client) (fuel : Nat) (s : Src)
             · exact finishTail_surfaces hk2
             · simp
 
-/-- a fresh source over framed items satisfies the invariant the theorem needs -/
-theorem fresh_SInv (lim : AliasLimits) (bud : Option Budget.Enf) (items : List RawItem) (fires : List (Nat × IoKind))
-    (h : framed 0 items = true) :
-    SInv { pump := { limits := lim, budget := bud }, input := items, total := items.length, fires := fires } :=
-  ⟨0, by simp [QInv, PInv], h⟩
+/-- (T) the error that `fault_surfaces_single` promises is not hidden behind the trailing-garbage rule
+either: whatever `seen_doc_end` says, an I/O error or a budget breach met at the trailing `peek` is returned. -/
+theorem trailing_garbage_only_scanner_errors (e : Err) (h : e.isTrailingGarbage = true) :
+    (∃ l, e = .pump (.scan l)) ∨ (∃ l, e = .pump (.unknownAnchor l)) := by
+  cases e with
+  | pump pe => cases pe <;> simp [Err.isTrailingGarbage] at h ⊢
+  | _ => simp [Err.isTrailingGarbage] at h
 
-/-- (T) fault_surfaces_iter_partial.  Drive `ReadIter` (any consumer, any parser items, any fault points)
-until it returns `None`.  If the cell was ever set and every yielded item is `Ok`, then some
-`let _ = self.src.next()` threw an `Err` away — which only happens while skipping a null-like document
-(an explicit `~`/`null`/empty document or the null synthesized for an empty, e.g. truncated, stream).
-Equivalently: unless that discard happened, a fault always produces an `Err` item. -/
-theorem fault_surfaces_iter_partial (c : Client) (fuel : Nat) : ∀ (calls : Nat) (it : Iter),
-    it.finished = false → K it.discardedErr it.src →
+/-- (T) fault_surfaces_iter (full strength since fix 80d7f83).  Drive `ReadIter` (any consumer, any parser
+items, any fault points, any budget) until it returns `None`: if every yielded item is `Ok`, the error cell
+was never set.  Equivalently a fault always produces an `Err` item — also while a null-like document is
+being skipped, the case that used to be swallowed. -/
+theorem fault_surfaces_iter (c : Client) (fuel : Nat) : ∀ (calls : Nat) (it : Iter),
+    it.finished = false → K false it.src →
     (iterAll c fuel calls it).2.1 = true →
     (∀ item ∈ (iterAll c fuel calls it).1, item.isErr = false) →
-    (iterAll c fuel calls it).2.2.src.everSet = true → (iterAll c fuel calls it).2.2.discardedErr = true := by
+    (iterAll c fuel calls it).2.2.src.everSet = false := by
   intro calls
   induction calls with
   | zero => intro it _ _ h; simp [iterAll] at h
   | succ calls ih =>
-    intro it hf hk hend hall hev
+    intro it hf hk hend hall
     have hg := iterNext_spec c fuel it hf hk
-    simp only [iterAll] at hend hall hev ⊢
+    simp only [iterAll] at hend hall ⊢
     cases hn : iterNext c fuel it with
     | mk r it' =>
       rw [hn] at hg
-      simp only [hn] at hend hall hev ⊢
+      simp only [hn] at hend hall ⊢
       cases r with
       | none =>
         simp only [Good] at hg
-        simp only at hev ⊢
-        rcases hg.1 hev with h | h
-        · simp [hg.2] at h
-        · exact h
+        simp only
+        cases hev : it'.src.everSet with
+        | false => rfl
+        | true =>
+          rcases hg.1 hev with h | h
+          · simp [hg.2] at h
+          · simp at h
       | some item =>
-        simp only at hend hall hev ⊢
+        simp only at hend hall ⊢
         cases item with
         | err e =>
           have := hall (.err e) (by simp)
           simp [Item.isErr] at this
         | ok =>
           simp only [Good] at hg
-          exact ih it' hg.1 hg.2 hend (fun i hi => hall i (by simp [hi])) hev
+          exact ih it' hg.1 hg.2 hend (fun i hi => hall i (by simp [hi]))
+
+/-- the same as an existence statement: the cell was set ⇒ some item is an `Err` -/
+theorem fault_yields_err_item (c : Client) (fuel calls : Nat) (it : Iter)
+    (hf : it.finished = false) (hk : K false it.src) (hend : (iterAll c fuel calls it).2.1 = true)
+    (hset : (iterAll c fuel calls it).2.2.src.everSet = true) :
+    ∃ item ∈ (iterAll c fuel calls it).1, item.isErr = true := by
+  apply Classical.byContradiction
+  intro hno
+  have hall : ∀ item ∈ (iterAll c fuel calls it).1, item.isErr = false := by
+    intro item hi
+    cases h : item.isErr with
+    | false => rfl
+    | true => exact absurd ⟨item, hi, h⟩ hno
+  have := fault_surfaces_iter c fuel calls it hf hk hend hall
+  rw [this] at hset
+  cases hset
 
 /-- the fresh iterator of `read` / `read_with_options` satisfies the hypotheses -/
 theorem fresh_iter_K (s : Src) (h : s.everSet = false) : K false s := by intro h'; simp [h] at h'
 
-/-! ### (F) the iterator swallows a fault that arrives while a null-like document is being skipped -/
+/-! ### regression: the former swallow witnesses (fixed by 80d7f83) now yield the error -/
 
 def defaultLimits : Budget.Limits :=
   { maxEvents := Gen.budgetDefault_maxEvents, maxAliases := Gen.budgetDefault_maxAliases,
@@ -129,36 +146,54 @@ def witnessCapItems : List RawItem :=
 anything: an empty stream, for which the pump synthesizes a null document -/
 def witnessEmptyItems : List RawItem := [.ev .streamStart 1048577, .ev .streamEnd 1048577]
 
-/-- (F) iter_swallows_fault_after_null: the cell was set, the iterator ends, and it yielded neither an
-error nor an item. -/
-theorem iter_swallows_fault_after_null :
-    (iterAll consumeNode 64 8 (readIter witnessCapItems [(2, kFileTooLarge)])).1 = [] ∧
+/-- regression (was (F) `iter_swallows_fault_after_null`): on both former witnesses the iterator now yields
+exactly one item, the I/O error, and ends. -/
+theorem iter_null_skip_surfaces_fault :
+    (iterAll consumeNode 64 8 (readIter witnessCapItems [(2, kFileTooLarge)])).1 = [.err (.io kFileTooLarge)] ∧
     (iterAll consumeNode 64 8 (readIter witnessCapItems [(2, kFileTooLarge)])).2.1 = true ∧
-    (iterAll consumeNode 64 8 (readIter witnessCapItems [(2, kFileTooLarge)])).2.2.src.everSet = true ∧
-    (iterAll consumeNode 64 8 (readIter witnessEmptyItems [(1, kOther)])).1 = [] ∧
-    (iterAll consumeNode 64 8 (readIter witnessEmptyItems [(1, kOther)])).2.1 = true ∧
-    (iterAll consumeNode 64 8 (readIter witnessEmptyItems [(1, kOther)])).2.2.src.everSet = true := by
+    (iterAll consumeNode 64 8 (readIter witnessEmptyItems [(1, kOther)])).1 = [.err (.io kOther)] ∧
+    (iterAll consumeNode 64 8 (readIter witnessEmptyItems [(1, kOther)])).2.1 = true := by
   decide
 
-/-- (E) the same inputs through the single-document entry point do fail -/
+/-- (E) the same inputs through the single-document entry point fail as before -/
 example : (fromReader consumeNode 64 (readIter witnessCapItems [(2, kFileTooLarge)]).src).1 = .err (.io kFileTooLarge) := by
   decide
-/-- (E) without the fault the iterator skips the null document and ends normally; with a non-null document
-the same fault surfaces -/
-example : (iterAll consumeNode 64 8 (readIter witnessCapItems [])).2.2.src.everSet = false := by decide
+/-- (E) without the fault the iterator skips the null document and ends normally (hypotheses satisfiable) -/
+example : (iterAll consumeNode 64 8 (readIter witnessCapItems [])).1 = [] ∧
+    (iterAll consumeNode 64 8 (readIter witnessCapItems [])).2.2.src.everSet = false := by decide
 example : (iterAll consumeNode 64 8 (readIter
     [.ev .streamStart 1048577, .ev (.docStart false) 1048577, .ev (.scalar ['x'] .plain 0 none) 1048577,
      .ev .docEnd 2097153, .ev .streamEnd 2097153] [(2, kOther)])).1 = [.err (.io kOther)] := by decide
+/-- a consumer that accepts a value after one event (like a unit/Option target on a shape mismatch) -/
+def takeOne : Client := fun hist =>
+  match hist with
+  | [] => .op .peek
+  | [_] => .op .next
+  | _ => .done
+
+/-- (E) a container end where a document should start is an error item (fix 2d066df): `[a]` read by a
+consumer that stops after one event -/
+example : (iterAll takeOne 64 8 (readIter
+    [.ev .streamStart 1048577, .ev (.docStart false) 1048577, .ev (.seqStart 0 none) 1048577,
+     .ev (.scalar ['a'] .plain 0 none) 1048578, .ev .seqEnd 1048579,
+     .ev .docEnd 2097153, .ev .streamEnd 2097153] [])).1 = [.ok, .ok, .err .unexpectedEnd] := by decide
+/-- (E) after a document end marker a scanner error is still ignored, an I/O error is not (fix ae01964) -/
+example : (fromReader consumeNode 64 (readIter
+    [.ev .streamStart 1048577, .ev (.docStart false) 1048577, .ev (.scalar ['a'] .plain 0 none) 1048577,
+     .ev .docEnd 2097153, .err false 3145729] []).src).1 = .ok := by decide
+example : (fromReader consumeNode 64 (readIter
+    [.ev .streamStart 1048577, .ev (.docStart false) 1048577, .ev (.scalar ['a'] .plain 0 none) 1048577,
+     .ev .docEnd 2097153, .err false 3145729] [(5, kOther)]).src).1 = .err (.io kOther) := by decide
 
 /-! ### a reader error reaches the cell -/
 
 /-- (T) reader_fault_sets_cell.  The reader delivers any bytes in any partition into non-empty read results
-and then a call FAILS with a hard error (any kind other than `Interrupted` and — see the (F) theorem below
-— `UnexpectedEof`): by the time `ChunkedChars` reports end of input to the scanner the shared cell is set
+and then a call FAILS with a hard error (any kind other than `Interrupted`, which is retried; since fix
+2f20266 this includes `UnexpectedEof`): by the time `ChunkedChars` reports end of input to the scanner the shared cell is set
 (with that error, or with the error of a malformed / truncated sequence met earlier).  Together with
 `fault_surfaces_single` this is the chain "reader error ⇒ cell set ⇒ `Err`". -/
 theorem reader_fault_sets_cell (pre post : Sched) (k : IoKind) (hc : chunked pre = true)
-    (hk1 : k ≠ kInterrupted) (hk2 : k ≠ kUnexpectedEof) :
+    (hk1 : k ≠ kInterrupted) :
     (collectAll { reader := pre ++ .fail k :: post }).2.cell ≠ none := by
   have hb : (flat pre).length < Sched.bytes (pre ++ .fail k :: post) + 1 := by
     have : ∀ (a b : Sched), flat (a ++ b) = flat a ++ flat b := by
@@ -167,20 +202,19 @@ theorem reader_fault_sets_cell (pre post : Sched) (k : IoKind) (hc : chunked pre
       | nil => simp [flat]
       | cons it rest ih => cases it <;> simp [flat, ih]
     simp [Sched.bytes, this, flat]; omega
-  exact SaphyrVerif.Lemmas.C09.collect_fault_recorded k hk1 hk2 post _ _ pre rfl hc rfl hb
+  exact SaphyrVerif.Lemmas.C09.collect_fault_recorded k hk1 post _ _ pre rfl hc rfl hb
 
-/-! ### (F) a reader error of kind `UnexpectedEof` is taken for the end of the input -/
+/-! ### regression: a reader error of kind `UnexpectedEof` (fixed by 2f20266) -/
 
-/-- (F) unexpected_eof_kind_swallowed: the reader delivers `a: 1\n` and then FAILS with
-`Err(ErrorKind::UnexpectedEof)` (what decompressors and TLS streams report for a truncated stream).
-`read_exact` maps a clean `Ok(0)` to the same kind, and `ChunkedChars::next` treats the kind as "true EOF":
-all five characters are produced and the error cell stays empty — downstream nothing can tell the stream
-was cut (the implementation returns `Ok({a: 1})` for `a: 1\nb: 2\n`; oracle id
-`C10-reader-unexpected-eof-kind-treated-as-eof`).  Any other kind is recorded. -/
-theorem unexpected_eof_kind_swallowed :
+/-- regression (was (F) `unexpected_eof_kind_swallowed`): the reader delivers `a: 1\n` and then FAILS with
+`Err(ErrorKind::UnexpectedEof)`; the five characters are produced and the error is now recorded in the
+cell, like any other kind; a clean `Ok(0)` still is the end of the input without an error. -/
+theorem unexpected_eof_kind_recorded :
     (collectAll { reader := [.data [0x61, 0x3A, 0x20, 0x31, 0x0A], .fail kUnexpectedEof] }).1 = ['a', ':', ' ', '1', '\n'] ∧
-    (collectAll { reader := [.data [0x61, 0x3A, 0x20, 0x31, 0x0A], .fail kUnexpectedEof] }).2.cell = none ∧
-    (collectAll { reader := [.data [0x61, 0x3A, 0x20, 0x31, 0x0A], .fail kOther] }).2.cell = some kOther := by
+    (collectAll { reader := [.data [0x61, 0x3A, 0x20, 0x31, 0x0A], .fail kUnexpectedEof] }).2.cell = some kUnexpectedEof ∧
+    (collectAll { reader := [.data [0x61, 0x3A, 0x20, 0x31, 0x0A], .data []] }).2.cell = none ∧
+    (collectAll { reader := [.data [0x61, 0x3A, 0x20, 0x31, 0x0A], .fail kInterrupted, .data [0x62]] }).1 =
+      ['a', ':', ' ', '1', '\n', 'b'] := by
   decide
 
 /-! ### byte cap -/
@@ -229,11 +263,12 @@ theorem pull_per_call (cc : CC) : (Reader.next cc).2.pulled ≤ cc.pulled + 4 :=
     -- a produced character is 1..4 bytes long: `n` is the value of `needed`
     have : n ≤ 4 := by
       unfold Reader.next at a b hn
-      cases h1 : readExact1 cc.reader with
+      cases h1 : readFirst cc.reader with
       | mk r1 s1 =>
         rw [h1] at a b hn
         cases r1 with
-        | err k => simp only [] at hn; split at hn <;> simp at hn
+        | eof => simp at hn
+        | err k => simp at hn
         | byte first =>
           simp only [] at a b hn
           cases hnd : needed first with
